@@ -403,6 +403,11 @@ func cmdRun(args []string) int {
 	for _, c := range pp.AllowedCuts {
 		allowed[c] = true
 	}
+	if d := plan["_defaults"]; d != nil {
+		for _, c := range d.AllowedCuts {
+			allowed[c] = true
+		}
+	}
 	newCuts := map[string]int{}
 	for _, r := range results {
 		for k, n := range r.Cuts {
